@@ -37,6 +37,7 @@ import (
 type input struct {
 	Doc   string              `json:"doc"`
 	Types map[string][]string `json:"types"`
+	Eff   bool                `json:"eff"` // also marshal the effective configuration (seq mode)
 }
 
 type output struct {
@@ -50,6 +51,27 @@ type output struct {
 	// to service::telemetry::{logs,metrics} and the component sections
 	Eff    map[string]any `json:"eff,omitempty"`
 	EffErr string         `json:"eff_err,omitempty"`
+}
+
+// normNil turns typed nil slices into empty lists: Conf.ToStringMap hands out []any(nil) for an empty list, which
+// IS an empty list for every Go consumer (and for yaml), but would be rendered as null by encoding/json here.
+func normNil(x any) any {
+	switch v := x.(type) {
+	case map[string]any:
+		for k, e := range v {
+			v[k] = normNil(e)
+		}
+		return v
+	case []any:
+		if v == nil {
+			return []any{}
+		}
+		for i, e := range v {
+			v[i] = normNil(e)
+		}
+		return v
+	}
+	return x
 }
 
 func effOf(cfg *otelcol.Config) (map[string]any, error) {
@@ -72,7 +94,7 @@ func effOf(cfg *otelcol.Config) (map[string]any, error) {
 			}
 		}
 	}
-	return out, nil
+	return normNil(out).(map[string]any), nil
 }
 
 // compCfg is the configuration of every test component: a few real fields, a nested struct and a map of
@@ -222,10 +244,12 @@ func load(i int, in input) (out output) {
 		return out
 	}
 	out.View = viewOf(cfg)
-	if eff, err := effOf(cfg); err != nil {
-		out.EffErr = err.Error()
-	} else {
-		out.Eff = eff
+	if in.Eff {
+		if eff, err := effOf(cfg); err != nil {
+			out.EffErr = err.Error()
+		} else {
+			out.Eff = eff
+		}
 	}
 	if err := xconfmap.Validate(cfg); err != nil {
 		out.Stage, out.Err = "validate", err.Error()
@@ -279,6 +303,9 @@ func main() {
 	workers := runtime.NumCPU()
 	if workers > 8 {
 		workers = 8
+	}
+	if os.Getenv("CFGVALIDATE_WORKERS") == "1" {
+		workers = 1 // loads strictly one after the other, as a collector process does
 	}
 	var wg sync.WaitGroup
 	var bad atomic.Int64
@@ -369,7 +396,7 @@ func runSeq(in, out string) error {
 		}
 		res := seqOut{I: i}
 		for k, d := range s.Docs {
-			res.Loads = append(res.Loads, load(k, input{Doc: d, Types: s.Types}))
+			res.Loads = append(res.Loads, load(k, input{Doc: d, Types: s.Types, Eff: true}))
 		}
 		b, _ := json.Marshal(res)
 		bw.Write(b)
